@@ -69,7 +69,8 @@ def out_equal(a, b):
         return len(a) == len(b) and all(out_equal(x, y) for x, y in zip(a, b))
     if a is None or b is None:
         return a is b
-    return a.shape == b.shape and torch.equal(torch.nan_to_num(a.double(), nan=12345.0), torch.nan_to_num(b.double(), nan=12345.0))
+    return (a.shape == b.shape and a.dtype == b.dtype
+            and torch.equal(torch.nan_to_num(a.double(), nan=12345.0), torch.nan_to_num(b.double(), nan=12345.0)))
 
 
 
@@ -151,6 +152,30 @@ def freeze(state):
 
 def thaw(blob):
     return torch.load(io.BytesIO(blob), weights_only=False)
+
+
+class record_dtype:
+    """construct a component whose records / buffers have the given (narrower) floating dtype; the source is then driven with
+    float64 observations (wider than the record), targets with observations of the record's own dtype"""
+
+    def __init__(self, case):
+        self.dt = {"float32": torch.float32}.get(case.get("record_dtype"))
+
+    def __enter__(self):
+        if self.dt is not None:
+            torch.set_default_dtype(self.dt)
+
+    def __exit__(self, *a):
+        torch.set_default_dtype(torch.float64)
+
+
+def narrow(case, src, x):
+    """inputs of targets (not the source) in the record's own dtype"""
+    if src or case.get("record_dtype") != "float32":
+        return x
+    if isinstance(x, (tuple, list)):
+        return type(x)(narrow(case, src, v) for v in x)
+    return x.float() if torch.is_tensor(x) and x.dtype == torch.float64 else x
 
 
 # ---------------------------------------------------------------- rigs: one per component kind
@@ -262,6 +287,19 @@ class LayerRig(Rig):
         sigs = [((torch.rand(B, generator=g) * 4 - 2) * 4).round() / 4 for _ in range(n)]
         return list(zip(xs, sigs))
 
+    def event(self, t):
+        if t == self.case.get("layer_clear_at"):
+            # end of an episode: layer.clear() and trainer.clear(keepshape=...) (monitors' reducers)
+            self.layer.clear()
+            if self.trainer is not None:
+                self.trainer.clear(keepshape=bool(self.case.get("clear_keepshape", True)))
+
+    def unshaped_after_event(self, k):
+        if k != self.case.get("layer_clear_at"):
+            return False
+        # RecurrentSerial.clear() releases the lazily created feedback_spikes buffer; trainer.clear(keepshape=False) the reducers' storage
+        return self.spec["cls"] == "RecurrentSerial" or (self.trainer is not None and not self.case.get("clear_keepshape", True))
+
     def step(self, t, inp, mode):
         x, sig = inp
         self.layer.train(mode.get("train", True))
@@ -362,7 +400,8 @@ class ReducerRig(Rig):
     def __init__(self, case, j):
         self.case = case
         self.cls = case["spec"]["cls"]
-        self.red = mk_reducer(case["spec"])
+        with record_dtype(case):
+            self.red = mk_reducer(case["spec"])
         self.src = j == 0
 
     def mods(self):
@@ -370,12 +409,17 @@ class ReducerRig(Rig):
 
     def gen_inputs(self, g, n):
         if self.src:
-            return [(torch.rand(self.case["shape"], generator=g) < 0.4).double() * (1 + (t % 3)) for t in range(n)]
-        return [(torch.rand(self.case["shape"], generator=g) < 0.4).double() for _ in range(n)]
+            # 0.1 is not representable: a float64 observation stored in a float32 record is rounded
+            return [(torch.rand(self.case["shape"], generator=g) < 0.4).double() * (1.1 + (t % 3)) for t in range(n)]
+        return [narrow(self.case, False, (torch.rand(self.case["shape"], generator=g) < 0.4).double() * 0.7) for _ in range(n)]
 
     def event(self, t):
         if t == self.case.get("src_clear_at"):
-            self.red.clear(keepshape=True)         # a source that was cleared (shape kept) and keeps running
+            # a source that was cleared (shape kept, or storage released) and keeps running
+            self.red.clear(keepshape=bool(self.case.get("clear_keepshape", True)))
+
+    def unshaped_after_event(self, k):
+        return k == self.case.get("src_clear_at") and not self.case.get("clear_keepshape", True)
 
     def clear(self):
         self.red.clear(keepshape=True)             # target run on other data, then cleared (lazily shaped storage kept)
@@ -393,13 +437,15 @@ class RecordRig(Rig):
         self.case = case
         self.N = case["N"]
         self.m = Module()
-        RecordTensor.create(self.m, "rec", 1.0, float(self.N - 1), torch.zeros(case["shape"]), inclusive=True)
+        with record_dtype(case):
+            RecordTensor.create(self.m, "rec", 1.0, float(self.N - 1), torch.zeros(case["shape"]), inclusive=True)
+        self.src = j == 0
 
     def mods(self):
         return [self.m]
 
     def gen_inputs(self, g, n):
-        return [torch.rand(self.case["shape"], generator=g) for _ in range(n)]
+        return [narrow(self.case, self.src, torch.rand(self.case["shape"], generator=g)) for _ in range(n)]
 
     def step(self, t, inp, mode):
         self.m.rec.push(inp, inplace=self.case.get("inplace", False))
@@ -460,7 +506,9 @@ class ComponentRig(Rig):
         self.cls = case["cls"]
         self.shape, self.batch = tuple(case["shape"]), case["B"]
         self.issyn = self.cls in factory.SYNAPSE_DEFAULTS
-        self.comp = mk_component(self.cls, case["dt"], case.get("delay", 0.0), self.shape, self.batch, case.get("inplace", False))
+        with record_dtype(case):
+            self.comp = mk_component(self.cls, case["dt"], case.get("delay", 0.0), self.shape, self.batch, case.get("inplace", False))
+        self.src = j == 0
 
     def mods(self):
         return [self.comp]
@@ -468,8 +516,8 @@ class ComponentRig(Rig):
     def gen_inputs(self, g, n):
         full = (self.batch, *self.shape)
         if self.issyn:
-            return [(torch.rand(full, generator=g) < 0.5, torch.rand(full, generator=g)) for _ in range(n)]
-        return [torch.rand(full, generator=g) * 300.0 - 20.0 for _ in range(n)]
+            return [(torch.rand(full, generator=g) < 0.5, narrow(self.case, self.src, torch.rand(full, generator=g))) for _ in range(n)]
+        return [narrow(self.case, self.src, torch.rand(full, generator=g) * 300.0 - 20.0) for _ in range(n)]
 
     def event(self, t):
         if t == self.case.get("clear_at"):
@@ -552,10 +600,47 @@ def _fail(what, detail, **kw):
     return dict({"ok": False, "what": what, "detail": detail}, **kw)
 
 
+def deepcopy_sound(case, mk, j):
+    """is copy.deepcopy of this component a usable independent instance?  (probe on a throw-away pair: stepping the replica must
+    change the replica and must not change the original)"""
+    try:
+        o = mk(j)
+        r = copy.deepcopy(o)
+        before, ob = thaw(freeze(o.state())), o.observe()
+        rb = thaw(freeze(r.state()))
+        ys = r.gen_inputs(torch.Generator().manual_seed(case["seed"] + 99), 2)
+        for t in range(2):
+            r.step(t, ys[t], {"train": True})
+        if sd_equal(before, thaw(freeze(o.state()))) or sd_equal(ob, o.observe()):
+            return "stepping the replica changes the ORIGINAL"
+        if sd_equal(rb, thaw(freeze(r.state()))) is None:
+            return "stepping the replica does not change the replica"
+        return None
+    except Exception as e:  # noqa
+        return f"{type(e).__name__}: {str(e)[:120]}"
+
+
 def make_target(case, mk, j):
-    """same configuration, different random parameters, already run on other data; every observer exercised after every step"""
+    """same configuration, different random parameters, already run on other data; every observer exercised after every step.
+    target_copy: the target is a copy.deepcopy REPLICA of a constructed instance (which is kept: loading into the replica
+    must not touch the original)"""
     rig = mk(j)
+    if case.get("target_copy"):
+        why = deepcopy_sound(case, mk, j)
+        if why is None:
+            orig = rig
+            if case.get("target_copy") == "after_step" and not case.get("_fresh"):
+                y0 = orig.gen_inputs(torch.Generator().manual_seed(case["seed"] + 55 + j), 1)
+                orig.step(0, y0[0], {"train": True})
+                orig.observe()
+            rig = copy.deepcopy(orig)
+            rig._orig = orig
+            rig._j = j
+        else:
+            case["_notes"].append(f"copy.deepcopy of {type(rig).__name__}/{getattr(rig, 'cls', None) or case.get('cls') or case['kind']} is not an independent instance: {why}")
     prior = case.get("prior", 1) if j == 1 else case.get("prior2", (case.get("prior", 1) + 2) if case.get("prior", 1) or not rig.lazy else 0)
+    if case.get("_fresh"):
+        prior = 0        # the checkpoint holds unshaped lazily shaped state: only a fresh instance can take it
     ys = rig.gen_inputs(torch.Generator().manual_seed(case["seed"] + 7 * j), prior)
     pm = gen_modes(case, prior, 100 + j, freeze_last=bool(case.get("target_frozen_last")))
     rig.observe()
@@ -615,10 +700,17 @@ def compare_restored(rig, obs_k, case, label, pre=None, ck=None, pre_state=None)
 def restore_and_compare(rig, ck, ck_ref, case, xs, modes, recs, obs_k, upto, label, final_ref=None):
     k = case["_k"]
     pre, pre_state = rig.observe(), {a: list(b.keys()) for a, b in rig.state().items()}     # the target just before the load
+    orig = getattr(rig, "_orig", None)
+    if orig is not None:
+        orig_obs, orig_state = orig.observe(), thaw(freeze(orig.state()))
     try:
         rig.load(ck, strict=case.get("strict", True))
     except Exception as e:  # noqa
         return _fail("load_failed", f"{label}: {type(e).__name__}: {str(e)[:400]}")
+    if orig is not None:
+        d = sd_equal(orig_state, thaw(freeze(orig.state()))) or sd_equal(orig_obs, orig.observe())
+        if d:
+            return _fail("original_changed_by_load", f"{label}: loading into a copy.deepcopy replica changed the ORIGINAL: {d}")
     d = sd_equal(ck_ref, thaw(freeze(rig.state())))
     if d:
         return _fail("restored_state_differs", f"{label}: state dict right after load_state_dict differs from the checkpoint: {d}")
@@ -626,7 +718,8 @@ def restore_and_compare(rig, ck, ck_ref, case, xs, modes, recs, obs_k, upto, lab
     if r:
         return r
     for t in range(k, upto):
-        rig.event(t)
+        if t > k:
+            rig.event(t)         # the events of step k happened before the state was saved
         o = rig.step(t, xs[t], modes[t])
         if not out_equal(o, recs[t][0]):
             return _fail("future_output_differs", f"{label}: output at step {t} (checkpoint at {k}) differs")
@@ -647,6 +740,8 @@ def run_source(case, A, xs, modes, T, k, quiet, on_k):
     if not quiet:
         A.observe()
     for t in range(T + 1):
+        if t < T or t == k:
+            A.event(t)               # scheduled clears happen BEFORE the save of the same step (checkpoint 0 steps after a clear)
         if t == k:
             r = on_k()
             if r:
@@ -654,7 +749,6 @@ def run_source(case, A, xs, modes, T, k, quiet, on_k):
             obs_k = A.observe()
         if t == T:
             break
-        A.event(t)
         out = A.step(t, xs[t], modes[t])
         recs.append((out, A.observe() if (not quiet or t >= k) else None))
     return None, recs, obs_k
@@ -662,7 +756,7 @@ def run_source(case, A, xs, modes, T, k, quiet, on_k):
 
 def protocol(case, mk0, T):
     k = min(case["k"], T)
-    case = dict(case, _k=k)
+    case = dict(case, _k=k, _notes=[])
 
     def mk(j):
         r = mk0(j)
@@ -672,6 +766,10 @@ def protocol(case, mk0, T):
     A = mk(0)
     xs = A.gen_inputs(torch.Generator().manual_seed(case["seed"]), T)
     modes = gen_modes(case, T, 0)
+    for key in ("layer_clear_at", "src_clear_at"):
+        if case.get(key) is not None and case[key] < T:
+            modes[case[key]]["train"] = True       # the first step after a clear shapes the lazily shaped reducers again
+    case["_fresh"] = bool(A.lazy and (k == 0 or getattr(A, "unshaped_after_event", lambda k: False)(k)))
     box = {}
 
     def save():
@@ -726,7 +824,8 @@ def protocol(case, mk0, T):
             return r
         for t in range(k, T):
             for rig in (L, fo):
-                rig.event(t)
+                if t > k:
+                    rig.event(t)
             oL, oF = L.step(t, xs[t], modes[t]), fo.step(t, xs[t], modes[t])
             if not out_equal(oF, recs[t][0]) or not out_equal(oL, recs[t][0]):
                 return _fail("future_output_differs", f"live transfer at step {k}: output at step {t} differs (source and target share state?)")
@@ -754,7 +853,7 @@ def protocol(case, mk0, T):
     if d:
         return _fail("checkpoint_mutated", f"running the restored instance changed the deserialised checkpoint object: {d}")
     upto = T if case.get("second_full") else min(T, k + 3)
-    if case.get("second", "rewind") == "rewind" and not (A.lazy and k == 0):
+    if case.get("second", "rewind") == "rewind" and not case["_fresh"]:
         r = restore_and_compare(B, ck, ck_ref, case, xs, modes, recs, obs_k, upto, "second restore of the same checkpoint object (rewind)",
                                 final_ref if upto == T else None)
     else:
@@ -772,7 +871,7 @@ def protocol(case, mk0, T):
         for v in (o.values() if isinstance(o, dict) else (o if isinstance(o, (list, tuple)) else [o])):
             if torch.is_tensor(v):
                 ev += int(v.double().abs().sum() > 0)
-    return {"ok": True, "events": ev, "keys": sum(len(v) for v in ck_ref.values()), "observers": len(obs_k)}
+    return {"ok": True, "events": ev, "keys": sum(len(v) for v in ck_ref.values()), "observers": len(obs_k), "notes": case["_notes"]}
 
 
 def run_layer(case):
